@@ -53,7 +53,8 @@ def gen(ctx, path):
                 c.add(**{"from": "srgb", "in": s + (a,), "path": [A, B] if A != "srgb" else [B], "mode": "a"})
     # a user-defined colour type with an internal alpha field, wired in by the derive macro (harness: UserRgb)
     for A in ORDER:
-        pts = random_in(A, rnd, 3 if ctx.quick else 12) + rnd.sample(lattice_in(A), 2 if ctx.quick else 8)
+        lat = lattice_in(A)
+        pts = random_in(A, rnd, 3 if ctx.quick else 12) + rnd.sample(lat, min(len(lat), 2 if ctx.quick else 8))
         for i, pnt in enumerate(pts):
             c.add(op="user", node=A, **{"in": tuple(pnt) + ((0.0, 0.25, 0.7311, 1.0, 1.5)[i % 5],)})
     # real colours outside the sRGB gamut, between the spaces that can represent them
